@@ -18,6 +18,8 @@
                                                    plain hexadecimal digits after `\u` (CPython's `int(esc, 16)`
                                                    also takes `+1a2`, `1_a2`, blanks: never produced by a writer)
     * `jsonTextOfBytes`, `bytesOfJsonText`      — the two directions composed
+    * `reprBytes`, `evalBytesLiteral`           — `repr(value)` of bytes (the value token of the flat and nested TEXT) and
+                                                   `ast.literal_eval` of such a token
     * `utf8Decode`, `utf8WhenValid`             — strict UTF-8 (RFC 3629, as `bytes.decode('utf-8')`) and the
                                                    "UTF-8 when valid, else latin-1" serialiser that
                                                    `Props/C09Cli.lean` refutes
@@ -165,6 +167,73 @@ def jsonFileVal : Val → Option Val
   | v => some v
 
 def jsonFileVals (vs : List Val) : Option (List Val) := vs.mapM jsonFileVal
+
+/-! ### the value token of the two TEXT formats for character data: `repr` of bytes and `ast.literal_eval` -/
+
+/-- the quote `bytes.__repr__` chooses: `'`, unless the value contains `'` and no `"` -/
+def reprQuote (b : List UInt8) : Char :=
+  if b.contains 0x27 && !b.contains 0x22 then '"' else '\''
+
+/-- what `bytes.__repr__` writes for one octet inside quotes `q` -/
+def escByte (q : Char) (x : UInt8) : List Char :=
+  if x.toNat = q.toNat ∨ x.toNat = 0x5C then ['\\', Char.ofNat x.toNat]
+  else if x.toNat = 9 then ['\\', 't']
+  else if x.toNat = 10 then ['\\', 'n']
+  else if x.toNat = 13 then ['\\', 'r']
+  else if x.toNat < 0x20 ∨ 0x7F ≤ x.toNat then ['\\', 'x', hexDigitChar (x.toNat / 16), hexDigitChar (x.toNat % 16)]
+  else [Char.ofNat x.toNat]
+
+/-- `repr(b)` of a `bytes` object (Python 3) -/
+def reprBytes (b : List UInt8) : List Char :=
+  'b' :: reprQuote b :: (b.flatMap (escByte (reprQuote b)) ++ [reprQuote b])
+
+/-- the escapes of a bytes literal that take no argument (`\newline`, octal and unknown escapes are not modelled: `repr`
+    never writes them) -/
+def byteEscape (e : Char) : Option Nat :=
+  if e = '\\' then some 0x5C
+  else if e = '\'' then some 0x27
+  else if e = '"' then some 0x22
+  else if e = 'n' then some 10
+  else if e = 'r' then some 13
+  else if e = 't' then some 9
+  else if e = 'a' then some 7
+  else if e = 'b' then some 8
+  else if e = 'f' then some 12
+  else if e = 'v' then some 11
+  else none
+
+def consB (x : UInt8) (r : Option (List UInt8)) : Option (List UInt8) :=
+  match r with
+  | some l => some (x :: l)
+  | none => none
+
+/-- the body of a bytes literal up to the closing quote `q`, which must end the text -/
+def scanBytes (q : Char) : List Char → Option (List UInt8)
+  | [] => none
+  | c :: r =>
+    if c = q then (if r.isEmpty then some [] else none)
+    else if c = '\\' then
+      match r with
+      | [] => none
+      | e :: r1 =>
+        if e = 'x' then
+          match r1 with
+          | h1 :: h2 :: r2 =>
+            match hexVal h1, hexVal h2 with
+            | some a, some b => consB (UInt8.ofNat (16 * a + b)) (scanBytes q r2)
+            | _, _ => none
+          | _ => none
+        else
+          match byteEscape e with
+          | some v => consB (UInt8.ofNat v) (scanBytes q r1)
+          | none => none
+    else if c.toNat < 0x20 ∨ 0x7F ≤ c.toNat then none
+    else consB (UInt8.ofNat c.toNat) (scanBytes q r)
+
+/-- `ast.literal_eval(tok)` of a token `b'…'` / `b"…"` -/
+def evalBytesLiteral : List Char → Option (List UInt8)
+  | 'b' :: q :: r => if q = '\'' ∨ q = '"' then scanBytes q r else none
+  | _ => none
 
 /-! ### the refuted alternative: UTF-8 when valid -/
 
